@@ -17,14 +17,16 @@ open Midgard.Text Midgard.Decimal Midgard.FixedCol Midgard.Sp3 Midgard.Spec.NumT
 
 /-! ### the abstract file -/
 
-/-- data-section lines that carry no position: velocity records and the EP / EV correlation records -/
-inductive ExtraKind | vel | ep | ev
+/-- data-section lines that carry no position: velocity records, the EP / EV correlation records, and
+blank lines (nothing but blanks, possibly none) -/
+inductive ExtraKind | vel | ep | ev | blank
   deriving Repr, DecidableEq, Inhabited
 
 def ExtraKind.tag : ExtraKind → Str
   | .vel => ['V']
   | .ep => ['E', 'P']
   | .ev => ['E', 'V']
+  | .blank => []
 
 /-- columns 62–80 of a position record: accuracy exponents (blank = unknown) and the four flags -/
 structure Acc where
@@ -48,7 +50,7 @@ structure PosRec where
   acc : Option Acc
   /-- `true`: the line is written with all its 80 columns; `false`: trailing blanks removed -/
   pad80 : Bool
-  /-- the lines that follow the record before the next one (V, EP, EV), each as (kind, rest of the line) -/
+  /-- the lines that follow the record before the next one (V, EP, EV, blank lines), each as (kind, rest of the line) -/
   extras : List (ExtraKind × Str)
   deriving Repr, DecidableEq, Inhabited
 
@@ -177,10 +179,14 @@ def Acc.wf (a : Acc) : Bool :=
 /-- an F14.6 field holds `-999999.999999 … 9999999.999999` -/
 def okF14 (n : Int) : Bool := decide (-1000000000000 < n) && decide (n < 10000000000000)
 
+/-- a V / EP / EV line carries printable text after its tag; a blank line consists of blanks only (any number, also none) -/
+def okExtra (x : ExtraKind × Str) : Bool :=
+  okText x.2 && (match x.1 with | .blank => x.2.all (· == ' ') | _ => true)
+
 def PosRec.wf (r : PosRec) : Bool :=
   okCell 3 r.sat && okF14 r.x && okF14 r.y && okF14 r.z && okF14 r.clk &&
   (match r.acc with | some a => a.wf | Option.none => true) &&
-  r.extras.all fun x => okText x.2
+  r.extras.all okExtra
 
 def distinct : List Epoch → Bool
   | [] => true
